@@ -389,6 +389,8 @@ def run(rep: common.Report):
         b.error = repr(e)
     b.seconds = time.time() - t0
     rep.bounded.append(b)
+    from vc.static import state as _state
+    rep.add(_state.obligation(PID, ('cal', 'timezone/tzp'), Obligation, PROVED, UNDECIDED))
     rep.explanation = __doc__
 
 
